@@ -180,9 +180,7 @@ func (s *State) loadArr(ex *Exec, r *Region) *Term {
 }
 
 func (ex *Exec) frameCheckRegion(st *State, r *Region, pos token.Pos) {
-	if r.Input {
-		ex.oblige(st, "frame", ex.siteName(pos, "write-to-input"), False, pos)
-	}
+	ex.obligeAlways(st, "frame", ex.siteName(pos, "write-not-to-input"), BoolC(!r.Input), pos)
 }
 
 // ---- interface invokes ----
@@ -201,6 +199,13 @@ func (ex *Exec) invoke(st *State, i *ssa.Call) []*State {
 		ev := &Event{Kind: "invoke", Site: ex.siteName(i.Pos(), name), Args: args, Res: []Value{pp, herr}, NPC: len(st.pc), Pos: i.Pos(),
 			Info: map[string]*Term{"p": pp, "err": herr}}
 		st.events = append(st.events, ev)
+		// ghost: the first non-nil handler error of this traversal; no call may follow it
+		gh, ok := st.ghost["herr"]
+		if !ok {
+			gh = NilErr
+		}
+		ex.obligeAlways(st, "err-identity", ex.siteName(i.Pos(), "no-handler-call-after-handler-error"), Eq(gh, NilErr), i.Pos())
+		st.ghost["herr"] = Ite(Eq(gh, NilErr), herr, gh)
 		// The handler may re-enter the library with the same Buffer: the contents of every
 		// scratch region reachable from the caller's parameters are havocked.
 		for root := range st.store {
@@ -318,6 +323,14 @@ func (ex *Exec) applyContract(st *State, i *ssa.Call, f *ssa.Function, fc *FuncC
 	for _, a := range fc.Assigns {
 		ex.havocAssign(st, a, vars, i.Pos())
 	}
+	// ghost state written by the callee
+	if fc.Ghost {
+		gh, ok := st.ghost["herr"]
+		if !ok {
+			gh = NilErr
+		}
+		st.ghost["herr"] = Ite(Eq(gh, NilErr), ex.fresh("ghost_herr", ErrSort), gh)
+	}
 	// results
 	var results TupleV
 	rs := sig.Results()
@@ -335,7 +348,7 @@ func (ex *Exec) applyContract(st *State, i *ssa.Call, f *ssa.Function, fc *FuncC
 		resVars[name] = TV{V: rv, Signed: isSigned(rs.At(j).Type())}
 	}
 	// ensures
-	for _, c := range fc.Ensures {
+	for _, c := range append(append([]*Clause{}, fc.Ensures...), fc.Defines...) {
 		if c.Mode != "" && c.Mode != ex.mode {
 			continue
 		}
